@@ -55,6 +55,11 @@ def case_strategy(draw, max_ops=40):
     top = draw(gen.mol_topology("MOLA", n, kinds=("tree", "chain"), nres=nres, hydrogens="none"))
     # private residue names so that a System recognises the species
     top["residues"] = [["R%d" % k, r[1], r[2]] for k, r in enumerate(top["residues"])]
+    if nres >= 2 and draw(st.integers(0, 3)) == 0:
+        # two neighbouring residues whose number and name read the same once glued together (1 + "2RA", 12 + "RA")
+        k = draw(st.integers(0, nres - 2))
+        top["residues"][k][:2] = ["2RA", 1]
+        top["residues"][k + 1][:2] = ["RA", 12]
     rng = np.random.default_rng(draw(gen.SEEDS))
     pos = gen.walk_geometry(n, top["edges"], rng)
     if draw(st.integers(0, 3)) == 0:
@@ -429,7 +434,7 @@ def check(case):
                 new = "N%d" % (seed % 97)
                 if e.kind == "mol" and top_group_size(e.top_group) == 1 and \
                         not any(x.owner == ei for x in pool):
-                    if flag and seed % 2:
+                    if flag and seed % 3:
                         names = ["%s%d" % (new[:3], k) for k in range(len(e.groups))]
                         o.resnames = list(names)
                         for g, nm_ in zip(e.groups, names):
@@ -540,7 +545,8 @@ def check(case):
         compare(model, pool, step, kind)
     kinds = sorted(set(e.kind for e in pool))
     return {"nontrivial": nontrivial,
-            "classes": ["source:" + case["source"], "residues:%d" % nres, "pool:" + "+".join(kinds)],
+            "classes": ["source:" + case["source"], "residues:%d" % nres, "pool:" + "+".join(kinds),
+                        "labels:" + ("colliding" if any(r[0] == "2RA" for r in spec["residues"]) else "distinct")],
             "sample": {"source": case["source"], "residues": [[r[0], len(r[2])] for r in spec["residues"]],
                        "ops": [o[:3] for o in case["ops"][:15]]}}
 
